@@ -41,11 +41,31 @@ func (c08) Generate(r *core.Rand, tier string, idx uint64) *core.Case {
 	cfg.unauth = r.Chance(0.7)
 	g := &pwGen{r: r, cfg: cfg, b: &opBuilder{}}
 	g.generate()
+	if r.Chance(0.3) && len(g.b.ops) > 4 {
+		// an invalid policy successor (rule file forged by an outsider who authorises itself) is written
+		// straight onto the policy ref somewhere in the history, followed by the outsider's push
+		bad := g.pol.Clone()
+		bad.Files["targets"].Version += 5
+		bad.Files["targets"].Rules[0].Principals = []string{world.GetKey(outsiderKey).ID}
+		bad.Files["targets"].Rules[0].Threshold = 1
+		bad.Files["targets"].Principals = append(bad.Files["targets"].Principals, world.KeyPrincipal(outsiderKey))
+		bad.Files["targets"].Signers = []int{outsiderKey}
+		delete(bad.Files, "protect-main")
+		delete(bad.Files, "main-delegates")
+		at := r.Range(3, len(g.b.ops))
+		ops := append([]world.Op{}, g.b.ops[:at]...)
+		n0 := len(g.b.ops)
+		ops = append(ops, world.Op{ID: n0 + 1, Kind: "byzPolicy", Actor: cfg.nDev + 1, Policy: bad, EntryKey: -2},
+			world.Op{ID: n0 + 2, Kind: "push", Actor: cfg.nDev + 1, Ref: mainRef, Files: fileFor(r, 777), CommitKey: outsiderKey, EntryKey: -2})
+		ops = append(ops, g.b.ops[at:]...)
+		g.b.ops = ops
+		c.Flags["invalidPolicyInHistory"] = true
+	}
 	// weave the cache actor's operations into the history
 	cacheActor := cfg.nDev + 2 // last actor (owns key outsiderKey+1)
 	ops := []world.Op{}
 	populated := false
-	id := len(g.b.ops)
+	id := len(g.b.ops) + 2
 	add := func(op world.Op) {
 		id++
 		op.ID = id
@@ -155,7 +175,7 @@ func (d c08) Execute(c *core.Case) *core.Result {
 				res.Violate("C08", "panic", fmt.Sprintf("op #%d %s panicked: %v", op.ID, op.Kind, out.Panic), op.ID)
 				return res
 			}
-			if out.Err != nil && out.Err != world.ErrSkipped && (op.Kind == "stage" || op.Kind == "apply") {
+			if out.Err != nil && out.Err != world.ErrSkipped && (op.Kind == "stage" || op.Kind == "apply") && !c.Flags["invalidPolicyInHistory"] {
 				res.HarnessErr = fmt.Sprintf("policy op #%d failed: %v", op.ID, out.Err)
 				return res
 			}
